@@ -216,3 +216,14 @@ package wal
 //@   requires w != nil && encOK(w.encoder)
 //@   callassert encode arg1.Type == crcType && arg1.Crc == prevCrc && len(arg1.Data) == 0
 //@   modifies *
+
+// snapshot markers of a WAL directory: the markers are filtered against the hard state only AFTER the whole log was
+// scanned (the decoder reported the end: err != nil), i.e. against the newest hard state - a marker saved before the
+// hard state that commits it is kept (partial contract: only this loop-entry condition of the filter loop)
+//@ property C05 C03
+//@ func ValidSnapshotEntries(walDir string) ([]walpb.Snapshot, error)
+//@   opt only=INV-ENTRY
+//@   opt autoloops
+//@   modifies *
+//@ loop 2
+//@   invariant err != nil
